@@ -245,16 +245,34 @@ fn exec_region(ctx: &mut Ctx, arena: &Arena, pl: &[u8], with_modules: bool) {
                 full_walk(ctx, it.clone(), pl, base as usize, &items, refuse, Seam::Raw);
                 // a fresh iterator reproduces the same walk
                 full_walk(ctx, it.clone(), pl, base as usize, &items, refuse, Seam::Raw);
+                // on a walk that must be refused, the consuming adapters must not return normally either
+                if refuse {
+                    let cap = items.len() + 1;
+                    let r = ctx.call("TagIter last (refused walk)", || it.clone().last().map(|_| ()));
+                    if !r.is_panic() {
+                        ctx.violation("c03/adapters/no-refusal/last", || format!("last() returned normally on a walk that leaves the region or meets a size below 8 after {} tags", items.len()));
+                    }
+                    let r = ctx.call("TagIter count (refused walk)", || it.clone().count());
+                    if !r.is_panic() {
+                        ctx.violation("c03/adapters/no-refusal/count", || "count() returned normally on a walk that must be refused".into());
+                    }
+                    let r = ctx.call("TagIter nth (refused walk)", || it.clone().nth(cap).map(|_| ()));
+                    if !r.is_panic() {
+                        ctx.violation("c03/adapters/no-refusal/nth", || "nth(beyond the walk) returned normally on a walk that must be refused".into());
+                    }
+                }
                 // adapters the iterator type may override: count, last, size_hint, skip, step_by, fold
                 if !refuse {
                     let want: Vec<usize> = items.iter().map(|i| i.off).collect();
                     let b0 = base as usize;
+                    let mut ks: Vec<usize> = (0..=want.len().min(6) + 1).collect();
+                    ks.extend([want.len().saturating_sub(1), want.len(), want.len() + 1]);
                     let r = ctx.call("TagIter adapters", || {
                         let off = |t: &multiboot2_common::DynSizedStructure<multiboot2::TagHeader>| t as *const _ as *const u8 as usize - b0;
                         let cnt = it.clone().count();
                         let last = it.clone().last().map(off);
                         let (lo, hi) = it.clone().size_hint();
-                        let skips: Vec<Option<usize>> = (0..=want.len() + 1).map(|k| it.clone().skip(k).next().map(off)).collect();
+                        let skips: Vec<Option<usize>> = ks.iter().map(|&k| it.clone().skip(k).next().map(off)).collect();
                         let step2: Vec<usize> = it.clone().step_by(2).map(off).collect();
                         let folded: Vec<usize> = it.clone().fold(vec![], |mut v, t| { v.push(off(t)); v });
                         let mut part = it.clone();
@@ -272,7 +290,7 @@ fn exec_region(ctx: &mut Ctx, arena: &Arena, pl: &[u8], with_modules: bool) {
                             if cnt != n { bad.push(format!("count() = {}", cnt)); }
                             if last != want.last().copied() { bad.push(format!("last() = {:?}", last)); }
                             if lo > n || hi.is_some_and(|h| h < n) { bad.push(format!("size_hint() = ({}, {:?})", lo, hi)); }
-                            let ws: Vec<Option<usize>> = (0..=n + 1).map(|k| want.get(k).copied()).collect();
+                            let ws: Vec<Option<usize>> = ks.iter().map(|&k| want.get(k).copied()).collect();
                             if skips != ws { bad.push(format!("skip(k).next() = {:?}", skips)); }
                             if step2 != want.iter().copied().step_by(2).collect::<Vec<_>>() { bad.push(format!("step_by(2) = {:?}", step2)); }
                             if folded != want { bad.push(format!("fold = {:?}", folded)); }
@@ -542,6 +560,14 @@ fn run(ctx: &mut Ctx) {
                             pl.extend(&plain);
                         }
                     }
+                    // the same region without the real end tag: its last 8 bytes are then payload that may look like one
+                    {
+                        let pl2 = pl.clone();
+                        ctx.leaf(
+                            || J::obj().set("body", "lookalike-unterminated").set("images", k).set("code", code).set("wrapping_type", typ).set("shape", shape).set("payload", J::hex(&pl2)),
+                            |ctx| exec_region(ctx, &big, &pl2, true),
+                        );
+                    }
                     pl.extend_from_slice(&[0, 0, 0, 0, 8, 0, 0, 0]);
                     ctx.leaf(
                         || J::obj().set("body", "lookalike").set("images", k).set("code", code).set("wrapping_type", typ).set("shape", shape).set("payload", J::hex(&pl)),
@@ -549,6 +575,35 @@ fn run(ctx: &mut Ctx) {
                     );
                 }
             }
+        }
+    }
+    // long regions: counters of 13, 16 and 17 bits
+    let counts: Vec<usize> = if quick { vec![8191, 8192, 65535, 65536, 65541] } else { vec![4095, 4096, 8191, 8192, 8193, 32768, 65535, 65536, 65537, 65541, 131072, 131077] };
+    ctx.bound("long_regions", format!("regions of N minimal (8-byte) custom tags + end tag for N in {:?}; regions of 64 KiB, 512 KiB and 1 MiB made of one large tag, one 16-byte tag and the end tag; same seams and oracle", counts));
+    let huge = Arena::new(300);
+    for &n in &counts {
+        let mut pl = vec![0u8; 8 * n + 8];
+        for i in 0..n {
+            wr32(&mut pl, 8 * i, 0x1337);
+            wr32(&mut pl, 8 * i + 4, 8);
+        }
+        wr32(&mut pl, 8 * n + 4, 8);
+        ctx.leaf(|| J::obj().set("body", "long-region/minimal-tags").set("tags", n).set("payload_len", pl.len()), |ctx| exec_region(ctx, &huge, &pl, true));
+    }
+    for total in [65536usize, 512 << 10, 1 << 20] {
+        for modtype in [0x1337u32, 3] {
+            let bigsize = total - 24;
+            let mut pl = vec![0u8; total];
+            for (i, b) in pl.iter_mut().enumerate() {
+                *b = marker(i, 5);
+            }
+            wr32(&mut pl, 0, modtype);
+            wr32(&mut pl, 4, bigsize as u32);
+            wr32(&mut pl, bigsize, 3);
+            wr32(&mut pl, bigsize + 4, 16);
+            wr32(&mut pl, total - 8, 0);
+            wr32(&mut pl, total - 4, 8);
+            ctx.leaf(|| J::obj().set("body", "long-region/large-tag").set("payload_len", total).set("first_tag_type", modtype), |ctx| exec_region(ctx, &huge, &pl, true));
         }
     }
     // histories
